@@ -221,10 +221,17 @@ fn all_edges(case: &StreamCase, canon: &Canon, offsets: &[usize], run: &Run, cal
             let replay = json!({"case": case.name, "calls_end_at": cuts, "peer_stream": hex(&case.stream)});
             if n >= HS {
                 // already complete: further calls must be refused, never a second hand-over
+                // refused, or the new bytes handed through untouched exactly once (never anything else)
+                let passed_through = match &r {
+                    Res::Completed(resp, rem) => resp.is_empty() && rem[..] == case.stream[n..n + k],
+                    Res::InProgress(resp) => resp.is_empty() && k == 0,
+                    _ => false,
+                };
                 match r {
                     Res::Err(_) => {}
+                    _ if passed_through => {}
                     other => {
-                        run.violation("C05/call-after-completion-accepted", &format!("{}: a call after completion returned {:?}", case.name, short(&other)), replay);
+                        run.violation("C05/call-after-completion-accepted", &format!("{}: a call with {} bytes after completion returned {}", case.name, k, short(&other)), replay);
                         return;
                     }
                 }
